@@ -160,6 +160,20 @@ fn frames() -> Vec<Frame> {
             specs.push((if e == "null" { "error-null" } else { "error-not-a-string" }, m));
         }
     }
+    // every frame that carries an `error` member also with a `continues` member (an error that ends a
+    // `more` stream, or a service that marks errors as continuing): classification must not depend on it
+    let with_continues: Vec<(&'static str, Vec<String>)> = specs
+        .iter()
+        .filter(|(_, m)| !m.is_empty() && m[0].starts_with("\"error\"") && !m.iter().any(|x| x.starts_with("\"continues\"")))
+        .flat_map(|(f, m)| {
+            ["\"continues\":true", "\"continues\":false"].into_iter().map(move |c| {
+                let mut m2 = m.clone();
+                m2.push(c.to_string());
+                (*f, m2)
+            })
+        })
+        .collect();
+    specs.extend(with_continues);
     let mut out = Vec::new();
     for (family, members) in specs {
         let refs: Vec<&str> = members.iter().map(|x| x.as_str()).collect();
